@@ -2,6 +2,15 @@
 import re
 
 PROPS = {
+    "C12": {
+        "modules": ["Ark.Props.C12"],
+        "claimed": False,
+        "crate": "harness2",
+        "rule": "one op line per subgroup test / cofactor clearing / cofactor-inverse / sampling call on a point of the WHOLE curve; distinct = distinct op line; non-trivial = non-identity point",
+        "exhaustive": ["every point of five toy curves with cofactors 4, 6, 8 (SW and TE)"],
+        "partial": ["the psi-based G2 subgroup tests and clearing formulas (BLS12-381/377, BN254 G2) and the claim #E = h*r behind the cofactor-one short-cut are not proved (point counts are not decidable by evaluation): covered by the correspondence on points of the whole curve for all 52 shipped configurations"],
+        "assumptions": ["h_eff constants for the optimised clearing maps are those of RFC 9380 8.8 / the crates' comments"],
+    },
     "C06": {
         "modules": ["Ark.Props.C06"],
         "claimed": False,
@@ -13,7 +22,6 @@ PROPS = {
     },
     "C11": {
         "modules": ["Ark.Props.C11"],
-        "claimed": False,
         "rule": "one op line per sqrt / legendre / coordinate-recovery call; distinct = distinct op line; non-trivial = input outside {0,1}",
         "exhaustive": ["every element of toy prime fields with two-adicity 1..8 (both sqrt variants, derived and hand-written), toy Fp2 up to 97^2, toy Fp3 up to 19^3; every coordinate of the toy curves"],
         "partial": [],
